@@ -278,7 +278,7 @@ Definition spec_visible (g : graph) (top : Z) (ctx : option thread) (q : Z) : bo
    Result: list of 0/1 flags
      [ stack ids known; find_queue = library's iterator on the observed stack; get_specific = library on the observed stack;
        label; assert_queue statuses; assert_queue_not statuses;                                   (model vs library: the tie)
-       observed stack = frames_of_path; skipped frames legitimate;                                (frames_of_path vs library)
+       observed stack is one of the stacks frames_of_path allows (allowed_threads);               (frames_of_path vs library)
        get_specific = nearest on chain of top; label = top; assert verdicts = chain / context;
        drain locks held by the thread are within chain / context                                  (library vs the property) ] *)
 Record probe := {
@@ -287,14 +287,23 @@ Record probe := {
 Fixpoint zeqb_list (x y : list Z) : bool :=
   match x, y with [], [] => true | a :: x', b :: y' => (a =? b) && zeqb_list x' y' | _, _ => false end.
 Definition status_of (r : assert_result) : Z := match r with APass => 0 | _ => 4 end.   (* 4 = SIGILL from __builtin_trap *)
-Definition obs_skipped (g : graph) (top : Z) (obs : thread) : list Z :=
-  filter (fun q => negb (q =? top) && negb (memz q (t_frames obs))) (removelast (cut_bound g (chain g top))).
-Definition path_with_skips (g : graph) (p : path) (obs : thread) : path :=
-  match p with PAsync top _ => PAsync top (obs_skipped g top obs) | _ => p end.
+(* the stacks frames_of_path allows for a path.  For an asynchronous item the model does not say WHICH of the skippable frames
+   redirection left out (that depends on whether a concurrent queue was idle when the item arrived), only which MAY be left out:
+   the allowed stacks are frames_of_path g (PAsync top sk) for every sublist sk of `skippable g (chain g top)`.  The observed
+   stack is compared with this SET (no part of the observation is substituted into the model). *)
+Fixpoint sublists (l : list Z) : list (list Z) :=
+  match l with
+  | [] => [[]]
+  | x :: l' => let r := sublists l' in r ++ map (cons x) r
+  end.
+Definition allowed_threads (g : graph) (p : path) : list thread :=
+  match p with
+  | PAsync top _ => map (fun sk => frames_of_path g (PAsync top sk)) (sublists (skippable g (chain g top)))
+  | _ => [frames_of_path g p]
+  end.
 Definition probe_check (g : graph) (tab keys : list Z) (dflt : Z) (p : probe) : list Z :=
   let th := p_obs p in
   let top := path_top (p_path p) in
-  let path' := path_with_skips g (p_path p) th in
   let locked := map (fun '(q, st) => locked_by_self st (p_tid p)) (combine tab (p_states p)) in
   let valid := map (fun q => match lookup g q with Some r => valid_assert_type r | None => false end) tab in
   map b2z [
@@ -304,8 +313,7 @@ Definition probe_check (g : graph) (tab keys : list Z) (dflt : Z) (p : probe) : 
     current_queue_or_default dflt th =? p_label p;
     negb (p_asserted p) || zeqb_list (map (fun '(q, st) => status_of (assert_queue g st (p_tid p) th q)) (combine tab (p_states p))) (p_aq p);
     negb (p_asserted p) || zeqb_list (map (fun '(q, st) => status_of (assert_queue_not g st (p_tid p) th q)) (combine tab (p_states p))) (p_anq p);
-    thread_eqb th (frames_of_path g path');
-    match path' with PAsync t sk => subsetz sk (skippable g (chain g t)) | _ => true end;
+    existsb (thread_eqb th) (allowed_threads g (p_path p));
     zeqb_list (map (nearest_specific g top) keys) (p_gs p);
     (if nz top then top else dflt) =? p_label p;
     negb (p_asserted p) ||
